@@ -71,7 +71,7 @@ class ShadowMemory:
     def offer(self, xk, gk):
         sy, yy, scale = self.margin(xk, gk)
         accepted = sy > self.eps * yy
-        degenerate = abs(sy - self.eps * yy) <= 1e-10 * scale
+        degenerate = scale > 0 and abs(sy - self.eps * yy) <= 1e-10 * scale
         if accepted:
             self.X.append(np.array(xk, dtype=float))
             self.G.append(np.array(gk, dtype=float))
@@ -143,7 +143,7 @@ def ref_gcp(x, g, lb, ub, B):
     for i in range(n):
         if pinned[i] or (t[i] == 0):
             pass
-    return dict(xcp=xcp, tstar=tstar, t=t, pinned=pinned, near=near, crossed=crossed)
+    return dict(xcp=xcp, z=z, tstar=tstar, t=t, pinned=pinned, near=near, crossed=crossed)
 
 
 def ref_subspace(x, xc, g, lb, ub, B):
